@@ -284,6 +284,23 @@ theorem bNtt_transMap : TransMap bNtt zNtt zc (fun a => a < P) where
   intt := fun xs => (bNtt_cast xs).2
   ok_intt := bNtt_intt_canon
 
+/-- the transform on canonical values is defined on every length `2^L`, `L ≤ 31` (C06: `ntt_b_is_dft`,
+    `intt_b_is_inverse_dft`), and preserves the length -/
+theorem bNtt_definedAt (L : Nat) (hL : L ≤ 31) : DefinedAt bNtt (2^L) := by
+  constructor
+  · intro xs hx
+    obtain ⟨r, y, _, hy, hys, _⟩ := ntt_b_eq_dft L hL xs.toArray (by simpa using hx)
+    exact ⟨y.toList, by simp [bNtt, nttTransform, hy], by simpa using hys⟩
+  · intro xs hx
+    obtain ⟨r, y, _, hy, hys, _⟩ := intt_b_eq_dft L hL xs.toArray (by simpa using hx)
+    exact ⟨y.toList, by simp [bNtt, nttTransform, hy], by simpa using hys⟩
+
+theorem nextPowerOfTwo_le_pow (n L : Nat) (h : nextPowerOfTwo n ≤ 2^L) : ∃ k, k ≤ L ∧ nextPowerOfTwo n = 2^k := by
+  obtain ⟨k, hk⟩ := nextPowerOfTwo_isPow n
+  refine ⟨k, ?_, hk⟩
+  rw [hk] at h
+  exact (Nat.pow_le_pow_iff_right (by norm_num)).1 h
+
 end Base
 
 end TF.Model.Poly
